@@ -48,6 +48,9 @@ class Env:
         return self.vecs[name]
 
 
+TINY_OK = [False]   # set by the reference interpreter while it evaluates its perturbed twin (differences of perturbed values are tiny by construction)
+
+
 def _num(x):
     if isinstance(x, complex):
         raise IllConditioned("complex")
@@ -56,7 +59,7 @@ def _num(x):
     x = float(x)
     if not math.isfinite(x):
         raise IllConditioned("non-finite")
-    if x != 0 and (abs(x) > 1e12 or abs(x) < 1e-9):
+    if x != 0 and (abs(x) > 1e12 or (abs(x) < 1e-9 and not TINY_OK[0])):
         raise IllConditioned("magnitude")
     return x
 
